@@ -22,7 +22,7 @@ RULE_TEXT = ("Workflows whose steps (num_workers 1..4) take 1-3 injected resourc
 COMPONENTS = {"real": ["workflows.resource.ResourceManager/_Resource, step_function.partial, engine"], "stub": ["llama_index_instrumentation"],
               "sim": ["loop, clock, instrumented factories"]}
 ASSUMPTIONS = ["'one dependency resolution' = the resolution performed for one step invocation"]
-EXPECTED_PROBES = ["falsy-cached-resource", "overlapping-resolutions", "diamond", "cycle-graph", "cached-hit", "async-factory"]
+EXPECTED_PROBES = ["shared-dependency-across-step-parameters", "falsy-cached-resource", "overlapping-resolutions", "diamond", "cycle-graph", "cached-hit", "async-factory"]
 LEVEL_TEXT = "Seeded exploration of factory durations x graph shapes x worker counts; oracle over creation/injection records of tagged objects."
 LEVEL_NOTE = "Trusted: simulator loop, factory/step instrumentation."
 
@@ -48,7 +48,7 @@ class EmptyTag(Tag):
 
 
 def gen(tape, cfg):
-    shape = tape.choice(["single", "single", "chain", "diamond", "diamond", "cycle", "two"], "shape")
+    shape = tape.choice(["single", "single", "chain", "diamond", "diamond", "cycle", "two", "two-shared", "two-shared"], "shape")
     return {"shape": shape, "n_events": tape.rng_int(2, 6, "n"), "workers": tape.rng_int(1, 4, "workers"),
             "cache": {k: bool(tape.draw(2, "cache." + k)) for k in "abcd"},
             "is_async": {k: bool(tape.draw(4, "async." + k)) for k in "abcd"},
@@ -117,6 +117,11 @@ def build(world, spec):
     elif shape == "two":
         set_deps("a", []); set_deps("b", [])
         top = ["a", "b"]
+    elif shape == "two-shared":
+        # a diamond across the step's own parameters: both injected resources depend on d
+        set_deps("a", ["d"]); set_deps("b", ["d"]); set_deps("d", [])
+        top = ["a", "b"]
+        world.probe("shared-dependency-across-step-parameters")
     else:
         set_deps("a", [])
         top = ["a"]
